@@ -18,7 +18,7 @@ STR = {
     "colon_space": "key: value", "space_hash": "text # not a comment", "dash_space": "- item", "flow_seq": "[a, b]", "flow_map": "{a: b}",
     "anchor": "&anchor", "alias": "*alias", "tag_bang": "!tag", "percent": "%TAG", "at_sign": "@at", "backquote": "`bq`",
     "single_quote": "it's", "double_quote": 'say "x"', "backslash": "back\\slash\\n", "nonascii": "héllo ✓ 日本",
-    "control": "bell\u0007", "tab": "a\tb", "long_line": "word " * 40, "question": "? key", "pipe": "| literal", "gt": "> folded",
+    "control": "bell\u0007", "tab": "a\tb", "html_chars": "<b>&amp;</b> a<b && c>d", "escape_like": "^[^\\u003c\\u003e\\u0026]*$ and \\n \\\\u0041", "long_line": "word " * 40, "question": "? key", "pipe": "| literal", "gt": "> folded",
 }
 NUM = {"big_int_2p53p1": "9007199254740993", "uint64_max": "18446744073709551615", "float_1e21": "1e21", "float_0_1": "0.1",
        "neg_zero": "-0.0", "float_integral": "1.0", "small_exp": "1e-7"}
@@ -76,7 +76,7 @@ def check(run, replay=None):
         cases = [c for c in cases if c["cmd"] != "genspec" or rnd.random() < 0.4]
     # every command variant at least with a plain and an ambiguous string and a number
     allc = sorted((e for t, e in gen["emitted"] if t == "CASE"), key=lambda c: json.dumps(c, sort_keys=True))
-    must = [c for c in allc if c["cls"] in ("int_like", "multiline", "float_1e21") and c["pos"] in ("default", "extension", "propname")]
+    must = [c for c in allc if c["cls"] in ("int_like", "multiline", "float_1e21", "escape_like", "html_chars") and c["pos"] in ("default", "extension", "propname")]
     cases += [c for c in must if c not in cases]
     pkg = run.scratch_module("emptypkg", modname="scratch/emptypkg")
     open(os.path.join(pkg, "main.go"), "w").write("// Package main has no swagger annotations.\npackage main\n\nfunc main() {}\n")
